@@ -18,8 +18,10 @@ RULE = (
     "strs, c: 3 floats that starts as a constant) of harvest_combos(sub-grid), "
     "harvest_cases(subset), add_ds(dataset), expand_dims(the constant "
     "argument; later steps sweep it), drop_sel(label), explicit "
-    "save_full_ds(), and NEW SESSION (fresh Harvester on the same data "
-    "name), each harvest with overwrite in {None, True, False}, sync on/off "
+    "save_full_ds(), in-place changes to the dataset that was just "
+    "harvested (the caller's own or runner.last_ds), a session started from "
+    "Harvester(full_ds=...), and NEW SESSION (fresh Harvester on the same "
+    "data name), each harvest with overwrite in {None, True, False}, sync on/off "
     "and an epoch that makes its values identical to, or different from, "
     "earlier ones; engines h5netcdf/joblib; data names with and without "
     "extension; 1-2 variables (one with an internal dimension).  A second "
@@ -136,7 +138,7 @@ def run_case(case):
     c0 = C_VALS[case["c0"] % len(C_VALS)]
     engine = case["engine"]
     stats = {"conflicts": 0, "sessions": 0, "overlaps": 0, "auto_flush": 0,
-             "rival": 0}
+             "rival": 0, "scribble": 0}
     tainted = [False]
     try:
         return _run_case(x, xr, case, nvars, c0, engine, stats, tainted)
@@ -178,6 +180,23 @@ def _run_case(x, xr, case, nvars, c0, engine, stats, tainted):
         h = new_session()
         mem, disk = Model(), Model()
         pending = False     # memory holds data the disk does not
+        init = case.get("init_full_ds")
+        if init:
+            # the session starts from a dataset handed to the constructor
+            isel = {d: sorted({UNIVERSE[d][i % len(UNIVERSE[d])]
+                               for i in init[d]}, key=UNIVERSE[d].index)
+                    for d in ("a", "b")}
+            ids_ = make_runner(0).run_combos(isel, verbosity=0)
+            if per_call:
+                h = x.Harvester(make_runner(0), data_name=data_name,
+                                full_ds=ids_)
+            else:
+                h = x.Harvester(make_runner(0), data_name=data_name,
+                                engine=engine, full_ds=ids_)
+            mem.merge({loc: 0 for loc in
+                       itertools.product(isel["a"], isel["b"])}, True)
+            mem.add_coords({d: set(v) for d, v in isel.items()})
+            pending = True
         rival = [None]      # a second, long-lived session on the same file
         stale = False       # the rival wrote after h last loaded
 
@@ -236,7 +255,9 @@ def _run_case(x, xr, case, nvars, c0, engine, stats, tainted):
                     # h's memory is out of date: a synced harvest reloads it
                     sync = True
                     mem = disk.clone()
-                if sync and pending:
+                if sync and pending and disk.exists:
+                    # (with no file yet a synced harvest keeps what is in
+                    # memory and writes all of it: nothing to exclude)
                     # known finding 'unsynced-data-dropped': a synced harvest
                     # reloads the disk dataset and forgets data harvested with
                     # sync=False.  Excluded by construction (flush first)
@@ -289,6 +310,17 @@ def _run_case(x, xr, case, nvars, c0, engine, stats, tainted):
                 else:
                     require(raised is None, "spurious-conflict",
                             f"{tag}: {raised!r:.300}")
+                    if op.get("scribble"):
+                        # the user goes on working with the dataset that was
+                        # just harvested (their own, or the runner's last_ds)
+                        # and changes it in place: what was harvested is not
+                        # affected
+                        tgt = ds if o == "add_ds" else actor.runner.last_ds
+                        for nm_ in list(tgt.data_vars):
+                            arr_ = tgt[nm_].values
+                            if arr_.flags.writeable and arr_.dtype.kind == "f":
+                                arr_[...] = -777.25
+                        stats["scribble"] += 1
                     if sync:
                         base.add_coords(new_coords)
                         mem = base
@@ -383,7 +415,10 @@ def _run_case(x, xr, case, nvars, c0, engine, stats, tainted):
                         "expanded" if expanded[0] else "not-expanded",
                         "conflict" if stats["conflicts"] else "no-conflict",
                         "new-session" if stats["sessions"] else "one-session",
-                        "rival-session" if stats["rival"] else "no-rival"],
+                        "rival-session" if stats["rival"] else "no-rival",
+                        "scribbled" if stats["scribble"] else "no-scribble",
+                        "ctor-full_ds" if case.get("init_full_ds")
+                        else "ctor-plain"],
             "notes": {"steps": nsteps, "expected_conflicts":
                       stats["conflicts"],
                       "excluded_pending_sync_flushes": stats["auto_flush"]}}
@@ -453,6 +488,7 @@ sel3 = st.fixed_dictionaries({
 policy = st.sampled_from([None, None, True, False])
 epochs = st.sampled_from([0, 0, 1, 2])
 syncs = st.sampled_from([True, True, True, False])
+scrib = st.sampled_from([False, False, True])
 
 
 @st.composite
@@ -461,16 +497,17 @@ def strategy(draw):
         st.fixed_dictionaries({"op": st.just("combos"), "sel": sel3,
                                "epoch": epochs, "overwrite": policy,
                                "sync": syncs, "reverse": st.booleans(),
+                               "scribble": scrib,
                                "rival": st.sampled_from(
                                    [False, False, False, True])}),
         st.fixed_dictionaries({"op": st.just("cases"),
                                "locs": st.lists(st.tuples(idx, idx, idx),
                                                 min_size=1, max_size=4),
                                "epoch": epochs, "overwrite": policy,
-                               "sync": syncs}),
+                               "sync": syncs, "scribble": scrib}),
         st.fixed_dictionaries({"op": st.just("add_ds"), "sel": sel3,
                                "epoch": epochs, "overwrite": policy,
-                               "sync": syncs}),
+                               "sync": syncs, "scribble": scrib}),
     )
     other = st.one_of(
         st.just({"op": "session"}), st.just({"op": "session"}),
@@ -485,7 +522,10 @@ def strategy(draw):
                                             "joblib"])),
             "dname": draw(st.sampled_from(["full.h5", "full", "results",
                                            "full.dmp", "d.nc"])),
-            "engine_per_call": draw(st.sampled_from([False, False, True]))}
+            "engine_per_call": draw(st.sampled_from([False, False, True])),
+            "init_full_ds": draw(st.none() | st.none() | st.fixed_dictionaries(
+                {"a": st.lists(idx, min_size=1, max_size=3),
+                 "b": st.lists(idx, min_size=1, max_size=2)}))}
 
 
 @st.composite
